@@ -96,7 +96,10 @@ def std_struct_config(rng, *, kinds, always=(), multi_p=0.3, lo=3, hi=60, mean=1
     k = rng.randint(1, len(gen.EDGE_CLASSES))
     cfg["edge_classes"] = sorted(rng.sample(gen.EDGE_CLASSES, k))
     cfg["vertex_classes"] = rng.choice(
-        [["Vertex"], ["Vertex", "SubVertex"], ["Vertex", "SubVertex", "FalsyVertex"]]
+        [["Vertex"], ["Vertex", "SubVertex"], ["Vertex", "SubVertex", "FalsyVertex"], ["Vertex", "FalsyVertex"]]
+    )
+    cfg["universe_classes"] = rng.choice(
+        [["Universe"], ["Universe", "SubUniverse"], ["Universe", "FalsyUniverse"], ["FalsyUniverse", "SubUniverse"]]
     )
     cfg["multi"] = rng.random() < multi_p
     cfg["nmv"] = rng.randint(1, 3)
